@@ -278,21 +278,31 @@ def entriesOf : List Rec → Nat → List Entry
 theorem encodeRecord_length_pos (r : Rec) : 0 < (encodeRecord r).length := by
   simp [encodeRecord, encodeHeader]
 
-theorem walk_encodePack (okRef : Bytes → Bool) (cf : Bool) (rs : List Rec) (f pos : Nat) (tail : Bytes)
-    (h : ∀ r ∈ rs, recOK okRef r = true) :
-    walk okRef cf (rs.length + f) pos (encodePack rs ++ tail) =
-      (entriesOf rs pos ++ (walk okRef cf f (pos + (encodePack rs).length) tail).1,
-       (walk okRef cf f (pos + (encodePack rs).length) tail).2) := by
-  induction rs generalizing pos with
+theorem walk_encodePack (okRef : Bytes → Bool) (cf : Bool) (rs : List Rec) (F pos : Nat) (tail : Bytes)
+    (h : ∀ r ∈ rs, recOK okRef r = true) (hF : rs.length ≤ F) :
+    walk okRef cf F pos (encodePack rs ++ tail) =
+      (entriesOf rs pos ++ (walk okRef cf (F - rs.length) (pos + (encodePack rs).length) tail).1,
+       (walk okRef cf (F - rs.length) (pos + (encodePack rs).length) tail).2) := by
+  induction rs generalizing pos F with
   | nil => simp [encodePack, entriesOf]
   | cons r rs ih =>
     have hr := h r (by simp)
-    have ih' := ih (pos + (encodeRecord r).length) (fun x hx => h x (by simp [hx]))
-    have e : (r :: rs).length + f = (rs.length + f) + 1 := by simp; omega
-    rw [e]
+    obtain ⟨F', rfl⟩ : ∃ F', F = F' + 1 := ⟨F - 1, by simp at hF; omega⟩
+    have ih' := ih F' (pos + (encodeRecord r).length) (fun x hx => h x (by simp [hx])) (by simp at hF; omega)
     simp only [encodePack, List.append_assoc]
     rw [walk_record okRef cf _ pos r _ hr, ih']
-    simp [entriesOf, Nat.add_assoc]
+    have e : F' + 1 - (r :: rs).length = F' - rs.length := by simp
+    simp [entriesOf, Nat.add_assoc, e]
+
+theorem walk_nil (okRef : Bytes → Bool) (cf : Bool) (f pos : Nat) : walk okRef cf f pos [] = ([], none) := by
+  cases f <;> simp [walk]
+
+theorem encodePack_length_ge (rs : List Rec) : rs.length ≤ (encodePack rs).length := by
+  induction rs with
+  | nil => simp [encodePack]
+  | cons r rs ih =>
+    have := encodeRecord_length_pos r
+    simp [encodePack]; omega
 
 /-- a strict prefix of a record (torn header or torn body) at the end of the file is not reported
 (with the fit check: `cf = true`) -/
@@ -342,5 +352,184 @@ theorem walk_torn (okRef : Bytes → Bool) (f pos : Nat) (r : Rec) (k : Nat)
         simp only [List.length_cons, List.length_append, List.length_take]; omega
       simp only [List.length_cons, List.length_append, List.length_take] at this
       simp; omega
+
+/-! ## index rows -/
+
+theorem Index.get_set_same (idx : Index) (k : Bytes) (v : Meta) : (idx.set k v).get k = some v := by
+  induction idx with
+  | nil => simp [Index.set, Index.get]
+  | cons p t ih =>
+    obtain ⟨k', v'⟩ := p
+    simp only [Index.set]
+    by_cases h : k = k'
+    · simp [h, Index.get]
+    · simp only [h, if_false]
+      by_cases hl : ltB k k' = true
+      · simp [hl, Index.get]
+      · simp [hl, Index.get, h, ih]
+
+theorem Index.get_set_other (idx : Index) (k k2 : Bytes) (v : Meta) (hne : k2 ≠ k) :
+    (idx.set k v).get k2 = idx.get k2 := by
+  induction idx with
+  | nil => simp [Index.set, Index.get, hne]
+  | cons p t ih =>
+    obtain ⟨k', v'⟩ := p
+    simp only [Index.set]
+    by_cases h : k = k'
+    · subst h; simp [Index.get, hne]
+    · simp only [h, if_false]
+      by_cases hl : ltB k k' = true
+      · simp [hl, Index.get, hne]
+      · simp only [hl]
+        by_cases h2 : k2 = k'
+        · simp [h2, Index.get]
+        · simp [h2, Index.get, ih]
+
+theorem Index.get_del_same (idx : Index) (k : Bytes) : (idx.del k).get k = none := by
+  induction idx with
+  | nil => rfl
+  | cons p t ih =>
+    obtain ⟨k', v'⟩ := p
+    simp only [Index.del, List.filter]
+    by_cases h : k' = k
+    · simp only [h, ne_eq, not_true_eq_false, decide_false]
+      exact ih
+    · have : k ≠ k' := fun e => h e.symm
+      simp only [ne_eq, h, not_false_eq_true, decide_true, Index.get, this, if_false]
+      exact ih
+
+theorem Index.get_del_other (idx : Index) (k k2 : Bytes) (hne : k2 ≠ k) : (idx.del k).get k2 = idx.get k2 := by
+  induction idx with
+  | nil => rfl
+  | cons p t ih =>
+    obtain ⟨k', v'⟩ := p
+    simp only [Index.del, List.filter]
+    by_cases h : k' = k
+    · subst h
+      simp only [ne_eq, not_true_eq_false, decide_false, Index.get, hne, if_false]
+      exact ih
+    · simp only [ne_eq, h, not_false_eq_true, decide_true, Index.get]
+      by_cases h2 : k2 = k'
+      · simp [h2]
+      · simp only [h2, if_false]; exact ih
+
+/-! ## extents -/
+
+theorem extent_append_left (p x : Bytes) (off size : Nat) (h : off + size ≤ p.length) :
+    extent (p ++ x) off size = extent p off size := by
+  unfold extent
+  rw [List.drop_append_of_le_length (by omega), List.take_append_of_le_length (by simp; omega)]
+
+theorem extent_exact (a b c : Bytes) : extent (a ++ b ++ c) a.length b.length = b := by
+  unfold extent
+  rw [List.append_assoc, List.drop_left, List.take_left]
+
+theorem extent_length_le (p : Bytes) (off size : Nat) : (extent p off size).length ≤ size := by
+  unfold extent; simp [List.length_take]; omega
+
+theorem extent_length_eq (p : Bytes) (off size : Nat) (h : off + size ≤ p.length) :
+    (extent p off size).length = size := by
+  unfold extent; simp [List.length_take, List.length_drop]; omega
+
+/-- same-length middle parts do not matter for an extent that lies before or after them -/
+theorem extent_frame (pre x y post : Bytes) (off size : Nat) (hxy : x.length = y.length)
+    (h : off + size ≤ pre.length ∨ pre.length + x.length ≤ off) :
+    extent (pre ++ x ++ post) off size = extent (pre ++ y ++ post) off size := by
+  rcases h with h | h
+  · rw [List.append_assoc, List.append_assoc, extent_append_left _ _ _ _ h, extent_append_left _ _ _ _ h]
+  · unfold extent
+    have e1 : (pre ++ x ++ post).drop off = post.drop (off - (pre ++ x).length) := by
+      rw [List.drop_append, List.drop_of_length_le (by simp; omega)]; simp
+    have e2 : (pre ++ y ++ post).drop off = post.drop (off - (pre ++ y).length) := by
+      rw [List.drop_append, List.drop_of_length_le (by simp; omega)]; simp
+    rw [e1, e2]; simp [hxy]
+
+/-! ## stores: rows within their packs, packs that only grow -/
+
+/-- every index row lies within its pack file -/
+def InBounds (st : Store) : Prop :=
+  ∀ ref m, st.index.get ref = some m → ∃ p, st.packs[m.file]? = some p ∧ m.offset + m.size ≤ p.length
+
+/-- every pack file of `ps` is still there in `qs`, possibly with bytes added at its end -/
+def Grows (ps qs : List Bytes) : Prop := ∀ (i : Nat) (p : Bytes), ps[i]? = some p → ∃ x, qs[i]? = some (p ++ x)
+
+theorem fetch_of_grows (st st' : Store) (hidx : st'.index = st.index) (hg : Grows st.packs st'.packs)
+    (hb : InBounds st) (r : Bytes) : st'.fetch r = st.fetch r := by
+  unfold Store.fetch
+  rw [hidx]
+  cases hm : st.index.get r with
+  | none => rfl
+  | some m =>
+    obtain ⟨p, hp, hle⟩ := hb r m hm
+    obtain ⟨x, hx⟩ := hg _ _ hp
+    simp only [hp, hx]
+    rw [extent_append_left _ _ _ _ hle]
+
+theorem exists_concat (l : List Bytes) (h : l ≠ []) : ∃ init last, l = init ++ [last] := by
+  induction l with
+  | nil => exact absurd rfl h
+  | cons x xs ih =>
+    cases xs with
+    | nil => exact ⟨[], x, rfl⟩
+    | cons y ys =>
+      obtain ⟨i, l, e⟩ := ih (by simp)
+      exact ⟨x :: i, l, by rw [e]; rfl⟩
+
+theorem getLast_concat (init : List Bytes) (last : Bytes) : (init ++ [last]).getLast?.getD [] = last := by
+  simp
+
+theorem setLast_concat (init : List Bytes) (last q : Bytes) : setLast (init ++ [last]) q = init ++ [q] := by
+  simp [setLast]
+
+theorem grows_concat (init : List Bytes) (last x : Bytes) (tail : List Bytes) :
+    Grows (init ++ [last]) (init ++ [last ++ x] ++ tail) := by
+  intro i p hp
+  by_cases hi : i < init.length
+  · rw [List.getElem?_append_left (by simpa using hi)] at hp
+    refine ⟨[], ?_⟩
+    rw [List.append_assoc, List.getElem?_append_left (by simpa using hi)]
+    simpa using hp
+  · have hi' : init.length ≤ i := by omega
+    rw [List.getElem?_append_right hi'] at hp
+    cases hk : i - init.length with
+    | zero =>
+      rw [hk] at hp
+      simp at hp; subst hp
+      refine ⟨x, ?_⟩
+      rw [List.append_assoc, List.getElem?_append_right hi', hk]
+      simp
+    | succ k => rw [hk] at hp; simp at hp
+
+theorem crashAppend_packs (st : Store) (init : List Bytes) (last : Bytes) (hp : st.packs = init ++ [last])
+    (ref body : Bytes) (keep : Nat) (np row : Bool) :
+    (st.crashAppend ref body keep np row).packs =
+      init ++ [last ++ (appendBytes ref body).take keep] ++ (if np then [[]] else []) := by
+  unfold Store.crashAppend
+  simp only [hp, getLast_concat, setLast_concat]
+  cases np <;> simp
+
+theorem crashAppend_grows (st : Store) (hne : st.packs ≠ []) (ref body : Bytes) (keep : Nat) (np row : Bool) :
+    Grows st.packs (st.crashAppend ref body keep np row).packs := by
+  obtain ⟨init, last, hp⟩ := exists_concat st.packs hne
+  rw [crashAppend_packs st init last hp, hp]
+  exact grows_concat _ _ _ _
+
+theorem inBounds_of_grows (st st' : Store) (hidx : st'.index = st.index) (hg : Grows st.packs st'.packs)
+    (hb : InBounds st) : InBounds st' := by
+  intro ref m hm
+  rw [hidx] at hm
+  obtain ⟨p, hp, hle⟩ := hb ref m hm
+  obtain ⟨x, hx⟩ := hg _ _ hp
+  exact ⟨p ++ x, hx, by simp; omega⟩
+
+/-- the completed `append` is the crash state "all bytes, roll-over done if due, row written" -/
+theorem append_eq_crashAppend (st : Store) (ref body : Bytes) :
+    st.append ref body = st.crashAppend ref body (appendBytes ref body).length
+      (decide ((st.packs.getLast?.getD [] ++ appendBytes ref body).length > st.maxSize)) true := by
+  unfold Store.append Store.crashAppend appendBytes
+  simp only [List.take_length, List.append_assoc, if_true]
+  by_cases h : (st.packs.getLast?.getD [] ++ (encodeHeader ref body.length ++ body)).length > st.maxSize
+  · simp [h]
+  · simp [h]
 
 end Pk.Pack
